@@ -11,6 +11,7 @@ import (
 	"regexp"
 	"sort"
 	"strings"
+	"sync"
 	"time"
 
 	"hermesverif/internal/core"
@@ -86,7 +87,23 @@ func makeWorkspace(c *core.Ctx, name string, nproj int, salt int64) *workspace {
 var failClasses = []string{"soil-id", "field-id", "texture", "texture-deep", "fractions", "weather-gap", "tillage-in-crop", "start-year"}
 
 // line builds the batch line of project p with its own result folder; fail != "" turns it into a failing line.
-func (ws *workspace) line(pi int, k int, fail string) batchLine {
+func (ws *workspace) line(pi int, k int, fail string) batchLine { return ws.lineVar(pi, k, fail, 0) }
+
+// lineRef returns the line of project pi with the override variant, or the plain line when the variant has no solo
+// reference (the override is not runnable for this project: it is then not part of the session).
+func (ws *workspace) lineRef(solo map[string]string, pi, k, variant int) batchLine {
+	l := ws.lineVar(pi, k, "", variant)
+	if _, ok := solo[l.SoloKey]; ok {
+		return l
+	}
+	return ws.lineVar(pi, k, "", 0)
+}
+
+// lineVariants: the same project with one configuration key overridden on the batch line. Lines of one session that
+// share every input file but differ in a key must not see each other's settings (caches keyed by file only).
+const lineVariants = 3
+
+func (ws *workspace) lineVar(pi int, k int, fail string, variant int) batchLine {
 	p := ws.Projects[pi]
 	args := map[string]string{}
 	order := []string{}
@@ -120,6 +137,20 @@ func (ws *workspace) line(pi int, k int, fail string) batchLine {
 	case "tillage-in-crop":
 		// the line of project btill itself
 	}
+	switch variant % lineVariants {
+	case 1: // groundwater from the other source (0 = polygon file, 1 = soil file)
+		if p.Cfg.GWFrom == "soilfile" {
+			set("GroundWaterFrom", "0")
+		} else {
+			set("GroundWaterFrom", "1")
+		}
+	case 2: // the other of the two radiation based ET methods
+		if p.Cfg.ETpot == 2 {
+			set("ETpot", "3")
+		} else {
+			set("ETpot", "2")
+		}
+	}
 	res := fmt.Sprintf("RES_%s_L%d", p.Name, k)
 	set("resultfolder", res)
 	var toks []string
@@ -127,6 +158,9 @@ func (ws *workspace) line(pi int, k int, fail string) batchLine {
 		toks = append(toks, k+"="+args[k])
 	}
 	key := p.Name
+	if variant%lineVariants != 0 && fail == "" {
+		key = fmt.Sprintf("%s#v%d", p.Name, variant%lineVariants)
+	}
 	return batchLine{Text: strings.Join(toks, " "), Fail: fail, SoloKey: key, ResultAt: res}
 }
 
@@ -266,17 +300,29 @@ func fnv32(b []byte) uint32 {
 // soloRefs runs every project alone in a fresh process (fresh file pool) and hashes its result files.
 func soloRefs(c *core.Ctx, bin string, ws *workspace) map[string]string {
 	refs := map[string]string{}
-	for pi, p := range ws.Projects {
-		l := ws.line(pi, 0, "")
-		dir := c.Sub("solo_" + p.Name)
+	var mu sync.Mutex
+	type job struct{ pi, v int }
+	var jobs []job
+	for pi := range ws.Projects {
+		for v := 0; v < lineVariants; v++ {
+			jobs = append(jobs, job{pi, v})
+		}
+	}
+	parallel(len(jobs), 8, func(j int) {
+		pi, v := jobs[j].pi, jobs[j].v
+		p := ws.Projects[pi]
+		l := ws.lineVar(pi, 0, "", v)
+		dir := c.Sub(fmt.Sprintf("solo_%s_v%d", p.Name, v))
 		bf := filepath.Join(dir, "batch.txt")
 		os.WriteFile(bf, []byte(l.Text+"\n"), 0644)
 		_, code, to := core.Run(dir, nil, 10*time.Minute, nil, bin, "-module", "batch", "-concurrent", "1", "-batch", bf, "-workingdir", ws.Root)
 		if code != 0 || to {
-			continue
+			return
 		}
-		refs[p.Name] = hashDir(filepath.Join(dir, l.ResultAt))
-	}
+		mu.Lock()
+		refs[l.SoloKey] = hashDir(filepath.Join(dir, l.ResultAt))
+		mu.Unlock()
+	})
 	return refs
 }
 
@@ -339,7 +385,7 @@ func checkC03(c *core.Ctx) {
 		n := 4 + r.Intn(5)
 		var lines []batchLine
 		for k := 0; k < n; k++ {
-			lines = append(lines, ws.line(r.Intn(good), k, "")) // repeated and distinct lines, random order
+			lines = append(lines, ws.lineRef(solo, r.Intn(good), k, r.Intn(lineVariants))) // repeated and distinct lines and overrides, random order
 		}
 		K := []int{1, 2, 3, 8, 16}[s%5]
 		outs = append(outs, runBatch(c, bin, ws, fmt.Sprintf("sess%d", s), lines, K, solo, ""))
@@ -348,7 +394,7 @@ func checkC03(c *core.Ctx) {
 	for s := 0; s < c.Pick(3, 10); s++ {
 		var lines []batchLine
 		for k := 0; k < 2*good; k++ {
-			lines = append(lines, ws.line((k+s)%good, k, ""))
+			lines = append(lines, ws.lineRef(solo, (k+s)%good, k, (k/good+s)%lineVariants))
 		}
 		outs = append(outs, runBatch(c, bin, ws, fmt.Sprintf("side%d", s), lines, 2*good, solo, ""))
 	}
@@ -363,7 +409,7 @@ func checkC03(c *core.Ctx) {
 	for s := 0; s < c.Pick(1, 6); s++ {
 		var lines []batchLine
 		for k := 0; k < 6; k++ {
-			lines = append(lines, ws.line(r.Intn(good), k, ""))
+			lines = append(lines, ws.lineRef(solo, r.Intn(good), k, r.Intn(lineVariants)))
 		}
 		routs = append(routs, runBatch(c, rbin, ws, fmt.Sprintf("race%d", s), lines, 6, solo, ""))
 	}
@@ -416,7 +462,7 @@ func checkC11(c *core.Ctx) {
 						lines = append(lines, ws.line(r.Intn(good), k, class))
 					}
 				} else {
-					lines = append(lines, ws.line(r.Intn(good), k, ""))
+					lines = append(lines, ws.lineRef(solo, r.Intn(good), k, r.Intn(lineVariants)))
 				}
 			}
 			K := []int{1, 2, 3, 8}[sess%4]
@@ -436,7 +482,7 @@ func checkC11(c *core.Ctx) {
 					lines = append(lines, ws.line(r.Intn(good), k, class))
 				}
 			} else {
-				lines = append(lines, ws.line(r.Intn(good), k, ""))
+				lines = append(lines, ws.lineRef(solo, r.Intn(good), k, r.Intn(lineVariants)))
 			}
 		}
 		outs = append(outs, runBatch(c, bin, ws, fmt.Sprintf("m%d", s), lines, 1+r.Intn(8), solo, ""))
